@@ -10,7 +10,8 @@ from ..oracles.pct import has_surrogate, HEX, _utf8_seq_len
 
 LEVEL = "exploration"
 RULE = (
-    "Cases are absolute URLs built with URL.build() from decoded components: host kind in {reg-name, IDN, IPv4, IPv6, IPv6+zone} x optional user, "
+    "Cases are absolute URLs built with URL.build() from decoded components: host kind in {reg-name, IDN, IDNA-2003-only IDN (symbol, underscore, "
+    "double hyphen, bidi), IPv4, IPv6, IPv6+zone} x optional user, "
     "password, port x path x mapping query x fragment, with texts over all delimiters of every component, '%', controls, non-printables (NBSP, "
     "ZWSP, bidi, BOM, unassigned), non-BMP.  EXHAUSTIVE kernel: every ASCII character and a list of special code points in each of 6 text positions "
     "alone and between letters.  Checked: URL(u.human_repr()) == u; every escape in human_repr() decodes to a character that is a delimiter, '%', "
@@ -21,7 +22,9 @@ ASSUMPTIONS = ["may-be-escaped set is read generously: any gen-delim/sub-delim, 
 
 SPECIAL = ["\xa0", "\xad", "​", "‮", "﻿", "͸", "\U000e0001", "\x85", " ", "é", "€", "😀", "＃", "／", "：", "＠", "？", "℀", "﹕"]
 HOSTS = [("reg", "example.com"), ("idn", "bücher.example"), ("idn2", "例え.jp"), ("ipv4", "127.0.0.1"), ("ipv6", "::1"), ("ipv6zone", "fe80::1%eth0"),
-         ("fqdn", "example.com."), ("idn-fqdn", "bücher.example.")]
+         ("fqdn", "example.com."), ("idn-fqdn", "bücher.example."),
+         # names only the IDNA 2003 fallback codec accepts (symbols, '_' or '--' next to an IDN label, bidi-rule violations): still shown decoded
+         ("idn2003-symbol", "☃.net"), ("idn2003-underscore", "_sip.bücher.de"), ("idn2003-hyphens", "bü--cher.de"), ("idn2003-bidi", "٣.bücher.de"), ("idn2003-emoji", "i❤.ws")]
 DEFAULT = {"http": 80, "https": 443, "ws": 80, "wss": 443, "ftp": 21}
 
 
